@@ -181,3 +181,98 @@ def stream_replay(ctx, module, cfg, overrides, replayer, label="s2c", nontrivial
         {"module": module, "cfg": cfg, "label": label, "overrides": canon(overrides or {}), "states": r.distinct,
          "paths_replayed": n, "steps_replayed": steps, "tlc_wall_s": round(r.wall_s, 2)}]
     return n
+
+
+# ---------------------------------------------------------------------------------------
+# seeded TLC simulation walks (tlc -simulate file=...), only the last state of each walk is
+# parsed (its `hist` holds the whole behaviour)
+
+_SIM_HDR = re.compile(r"^STATE_(\d+) ==\s*$", re.M)
+
+
+def read_sim_last(path, hist_var="hist", extra_vars=("cfg",)):
+    with open(path) as f:
+        text = f.read()
+    hs = list(_SIM_HDR.finditer(text))
+    if not hs:
+        return None
+    body = text[hs[-1].end():]
+    lines = [ln for ln in body.splitlines() if not ln.startswith("\\*") and ln.strip() != "" and not ln.startswith("====")]
+    return parse_state_fast("\n".join(lines), hist_var, extra_vars)
+
+
+def _sim_work(files):
+    try:
+        n = steps = 0
+        digests, divs, sample = [], [], None
+        for fn in files:
+            ep = read_sim_last(fn)
+            if ep is None or not ep[1]:
+                continue
+            extra, path = ep
+            n += 1
+            steps += len(path)
+            if sample is None:
+                sample = (extra, path)
+            digests.append(hashlib.sha1(jdump([extra, [[s["act"], s["args"]] for s in path]]).encode()).digest()[:8])
+            res = _REPLAYER(extra, path)
+            if res is not None and len(divs) < 200:
+                divs.append((extra, path, res))
+        return {"n": n, "steps": steps, "digests": digests, "divs": divs, "sample": sample}
+    except BaseException:
+        return {"machinery": traceback.format_exc()[-3000:]}
+
+
+def sim_replay(ctx, module, cfg, num, depth, overrides, replayer, label="s2c-sim", timeout=None, spec_dir="sync"):
+    """`num` seeded random walks of length `depth` through the Gen_* spec, replayed into the real code."""
+    global _REPLAYER
+    import shutil
+    spec_dir = os.path.join(VERIF, "specs", spec_dir)
+    cfgp = make_cfg(os.path.join(spec_dir, cfg), overrides or {}, ctx.scratch,
+                    "%s_%s_%s" % (module, label, os.path.basename(cfg)))
+    d = os.path.join(ctx.scratch, "sim_%s_%d" % (module, len(os.listdir(ctx.scratch))))
+    os.makedirs(d)
+    r = tlc.run(spec_dir, module, cfgp, timeout=timeout or ctx.pick(300, 1500), workers=1,
+                simulate={"num": num, "file": os.path.join(d, "tr")}, depth=depth, seed=ctx.seed + 1)
+    if not r.ok:
+        raise Machinery("simulation spec reported %s" % r.violation)
+    ctx.cov["checker_cmd"].append("tlc -simulate num=%d -depth %d -config %s %s" % (num, depth, cfg, module))
+    files = sorted(os.path.join(d, f) for f in os.listdir(d))
+    if len(files) < num // 2:
+        raise Machinery("sync_paths: %d simulation files for num=%d" % (len(files), num))
+    # cross-check the fast reader against the generic one on the first walk
+    beh = tlc.read_sim_file(files[0])
+    slow = ({"cfg": canon(beh[-1][1]["cfg"])}, canon(beh[-1][1]["hist"]))
+    if jdump(slow) != jdump(read_sim_last(files[0])):
+        raise Machinery("sync_paths: fast simulation reader disagrees with tlc.read_sim_file on %s" % files[0])
+    nproc = int(os.environ.get("VERIF_WORKERS", "16"))
+    _REPLAYER = replayer
+    per = max(1, len(files) // (nproc * 3))
+    jobs = [files[i:i + per] for i in range(0, len(files), per)]
+    if len(files) < 64:
+        results = [_sim_work(j) for j in jobs]
+    else:
+        with multiprocessing.get_context("fork").Pool(min(nproc, len(jobs))) as pool:
+            results = pool.map(_sim_work, jobs, chunksize=1)
+    shutil.rmtree(d, ignore_errors=True)
+    n = steps = 0
+    digests = []
+    for res in results:
+        if res.get("machinery"):
+            raise Machinery("sync_paths sim worker crashed: %s" % res["machinery"])
+        n += res["n"]
+        steps += res["steps"]
+        digests.extend(res["digests"])
+        for extra, path, dv in res["divs"]:
+            if isinstance(dv, dict) and dv.get("machinery"):
+                raise Machinery("replayer crashed: %s" % dv["machinery"])
+            sig = {"kind": label}
+            sig.update(dv.get("sig") or {"act": dv.get("act"), "exp": dv.get("exp"), "obs": dv.get("obs")})
+            ctx.violation(sig, {"extra": extra, "path": path, "divergence": dv})
+    samples = [{"kind": label, "extra": res["sample"][0], "path": res["sample"][1][:12]} for res in results[:1] if res["sample"]]
+    ctx.cov["traces_validated_against_impl"] += n
+    ctx.add_eval(n, distinct_keys=digests, samples=samples)
+    ctx.cov["sim_runs"] = ctx.cov.get("sim_runs", []) + [
+        {"module": module, "cfg": cfg, "label": label, "overrides": canon(overrides or {}), "walks": n,
+         "steps_replayed": steps, "depth": depth, "tlc_wall_s": round(r.wall_s, 2)}]
+    return n
